@@ -1101,6 +1101,11 @@ func runConsensusCase(idx int, cse *csCase, workroot string) ([]string, []Monito
 			if !nd.down && crashes < 3 && len(honest) > 1 {
 				crashes++
 				c.dist["crash"]++
+				if r.Chance(1, 4) {
+					// the log's head file was rotated some time before the crash
+					c.dist["wal-rotated-before-crash"]++
+					catchPanic(func() { nd.cs.VerifRotateWAL() })
+				}
 				c.crash(nd, r.Chance(1, 3))
 			}
 		default:
